@@ -1,5 +1,217 @@
 package c12
 
-import "github.com/google/pprof/verifh/vk"
+import (
+	"fmt"
+	"os"
+	"path/filepath"
+	"slices"
 
-func e2e(c *vk.Ctx, idx int64) {}
+	"github.com/google/pprof/internal/symbolizer"
+	"github.com/google/pprof/profile"
+
+	"github.com/google/pprof/verifh/drive"
+	"github.com/google/pprof/verifh/vk"
+)
+
+// End-to-end family: the same fake plug-ins behind the real driver
+// (fetch -> locateBinaries -> Symbolize -> CheckValid -> "-proto" report).
+// The oracle is differential: the run with -symbolize=<mode> must yield the
+// same measurements as the run with -symbolize=none under the same answers,
+// and must not be refused unless a symbol source answered with a failure.
+
+var e2eModes = []string{"", "local", "remote", "force", "fastlocal:demangle=full"}
+
+type absSample struct {
+	values []int64
+	label  map[string][]string
+	num    map[string][]int64
+	unit   map[string][]string
+	addrs  []uint64
+	ranges [][3]uint64
+}
+
+func abstractOut(p *profile.Profile) []absSample {
+	out := make([]absSample, 0, len(p.Sample))
+	for _, s := range p.Sample {
+		a := absSample{values: s.Value, label: s.Label, num: s.NumLabel, unit: s.NumUnit}
+		for _, l := range s.Location {
+			a.addrs = append(a.addrs, l.Address)
+			var r [3]uint64
+			if m := l.Mapping; m != nil {
+				r = [3]uint64{m.Start, m.Limit, m.Offset}
+			}
+			a.ranges = append(a.ranges, r)
+		}
+		out = append(out, a)
+	}
+	return out
+}
+
+func diffAbs(a, b []absSample) string {
+	if len(a) != len(b) {
+		return fmt.Sprintf("%d samples, %d without symbolization", len(a), len(b))
+	}
+	for i := range a {
+		x, y := a[i], b[i]
+		switch {
+		case !slices.Equal(x.values, y.values):
+			return fmt.Sprintf("sample %d: values %v vs %v", i, x.values, y.values)
+		case !eqStrMap(x.label, y.label) || !eqIntMap(x.num, y.num) || !eqStrMap(x.unit, y.unit):
+			return fmt.Sprintf("sample %d: labels differ", i)
+		case !slices.Equal(x.addrs, y.addrs):
+			return fmt.Sprintf("sample %d: stack addresses %#x vs %#x", i, x.addrs, y.addrs)
+		case !slices.Equal(x.ranges, y.ranges):
+			return fmt.Sprintf("sample %d: mapping ranges %#x vs %#x", i, x.ranges, y.ranges)
+		}
+	}
+	return ""
+}
+
+type e2eExplorer struct {
+	c     *vk.Ctx
+	cs    Case
+	bound int
+	idx   int64
+}
+
+func e2e(c *vk.Ctx, idx int64) {
+	bound := 1
+	pres := []int{0, 1, 2}
+	if c.Thorough() {
+		bound = 2
+		pres = []int{0, 1, 2, 3, 5}
+	}
+	c.Note(fmt.Sprintf("family e2e (real driver, -proto, differential against -symbolize=none): %d layouts x %d function tables x flags {none, m0:F} x {file source, URL source} x %d modes; answer sequences with <= %d non-default answers (search-path Open: 3 answers)", nLayouts, len(pres), len(e2eModes), bound))
+	for la := 0; la < nLayouts; la++ {
+		for _, pre := range pres {
+			for fl := 0; fl < 2; fl++ {
+				for src := 0; src < 2; src++ {
+					for _, mode := range e2eModes {
+						if c.Mine(idx) {
+							if c.Expired() {
+								c.Cap(fmt.Sprintf("time budget: stopped in family e2e at case index %d", idx))
+								return
+							}
+							x := &e2eExplorer{c: c, bound: bound, idx: idx, cs: Case{Layout: la, Flags: fl, Pre: pre, Names: 3, Src: src, Mode: mode, E2E: true}}
+							x.explore(nil, 0)
+						}
+						idx++
+					}
+				}
+			}
+		}
+	}
+	if c.Counter("e2e/executions") > 200 {
+		for _, k := range []string{"e2e/functions-attached", "e2e/refused-after-source-failure", "e2e/search-path-binary-found"} {
+			if c.Counter(k) == 0 {
+				c.Vacuous("no execution with " + k)
+			}
+		}
+	}
+}
+
+func (x *e2eExplorer) explore(pre []int, devs int) {
+	alts := x.exec(pre)
+	if devs >= x.bound {
+		return
+	}
+	for i := len(pre); i < len(alts); i++ {
+		for a := 1; a < int(alts[i]); a++ {
+			np := make([]int, i+1)
+			copy(np, pre)
+			np[i] = a
+			x.explore(np, devs+1)
+		}
+	}
+}
+
+func (x *e2eExplorer) run(mode string, pre []int) (*drive.Result, *world) {
+	sbx := drive.Sandbox()
+	tmp := filepath.Join(sbx, "tmp")
+	os.RemoveAll(tmp)
+	os.MkdirAll(tmp, 0755)
+	w := &world{cs: &x.cs, pre: pre, e2e: true, binDir: filepath.Join(sbx, "bin")}
+	p, _ := build(&x.cs, w)
+	fake := &tool{w}
+	tr := &transport{w}
+	u := &drive.UI{}
+	url := ""
+	if x.cs.Src == 1 {
+		url = "http://m0.host/debug/pprof/profile?seconds=1"
+	}
+	s := &drive.Session{
+		Flags: drive.MkFlags([]string{"p"}, "proto", "symbolize="+mode),
+		Fetch: &drive.Fetcher{Prof: map[string]func() *profile.Profile{"p": func() *profile.Profile { return p }}, Src: map[string]string{"p": url}},
+		Sym:   &symbolizer.Symbolizer{Obj: fake, UI: u, Transport: tr},
+		Obj:   fake, UI: u, Tr: tr,
+	}
+	return drive.Run(s), w
+}
+
+func (x *e2eExplorer) exec(pre []int) []uint8 {
+	c := x.c
+	c.Eval()
+	c.Trace(1)
+	c.Count("e2e/executions", 1)
+	r, w := x.run(x.cs.Mode, pre)
+	c.Transition(int64(len(w.alts)))
+	fail := func(class, format string, args ...any) {
+		if c.HasViolation(class) {
+			c.Violation(class, nil, "")
+			return
+		}
+		c.SetCase(x.idx)
+		cs := x.cs
+		cs.Ans = append([]int(nil), pre...)
+		cs.Calls = w.calls()
+		w2 := &world{cs: &cs}
+		bp, _ := build(&cs, w2)
+		cs.Desc = fmt.Sprintf("layout=%s; flags=%s; functions=%s; profile source=%s :: ", layoutNames[cs.Layout], flagNames[cs.Flags], preNames[cs.Pre], []string{"file", "URL"}[cs.Src]) + describe(bp, nil)
+		c.Violation(class, cs, fmt.Sprintf(format, args...))
+	}
+	for i, k := range w.kinds {
+		if k == kOpenSearch && w.taken[i] == 1 {
+			c.Count("e2e/search-path-binary-found", 1)
+			break
+		}
+	}
+	if w.bad {
+		fail("harness/replay-diverged", "an answer of the prefix does not fit the call made")
+	}
+	if r.Panic != nil {
+		fail("e2e/panic", "panic: %v\n%s", r.Panic, r.Stack)
+		return w.alts
+	}
+	base, _ := x.run("none", pre)
+	if base.Panic != nil || base.Err != nil {
+		fail("harness/e2e-baseline", "the run with -symbolize=none failed: %v %v", base.Err, base.Panic)
+		return w.alts
+	}
+	if r.Err != nil {
+		if w.nErrAns > 0 {
+			c.Count("e2e/refused-after-source-failure", 1)
+		} else {
+			fail("e2e/profile-refused", "no symbol source reported a failure, yet pprof refuses the profile after symbolization: %v", r.Err)
+		}
+		return w.alts
+	}
+	po, err := profile.ParseData(r.Out)
+	if err != nil {
+		fail("e2e/output-unparsable", "%v", err)
+		return w.alts
+	}
+	pb, err := profile.ParseData(base.Out)
+	if err != nil {
+		fail("harness/e2e-baseline", "baseline output unparsable: %v", err)
+		return w.alts
+	}
+	if d := diffAbs(abstractOut(po), abstractOut(pb)); d != "" {
+		fail("e2e/measurements-changed", "%s", d)
+	}
+	if len(po.Function) > len(pb.Function) {
+		c.Count("e2e/functions-attached", 1)
+		c.Nontrivial(fmt.Sprint("e2e", x.idx, pre))
+	}
+	c.Outcome(fmt.Sprint("e2e", len(po.Function), len(po.Sample), r.Err != nil))
+	return w.alts
+}
